@@ -173,3 +173,10 @@ def rules(t):
             for v_ in x_.violations: rr_.bad(v_.key, v_.site, v_.msg)
     out.append(rr_)
     return out
+
+_rules_C04_sw = rules
+def rules(t, *a, **kw):
+    import rules.wave5 as W5
+    out = _rules_C04_sw(t, *a, **kw)
+    out.append(W5.size_window(t, "C04.l"))
+    return out
